@@ -295,7 +295,7 @@ REGISTRY = {
                                         other=["MetaDataReplace", "RunningOrderReplace"], theorems=()), A_COMMON + [
         "structure (how many carried, storyBody position, body composition) enumerated by TLC; the content behind each token "
         "(depth, attributes, mixed text, special characters) sampled by gamma and compared by digest"]),
-    "C05": merge_property(lambda t: fam(t, story=STORY, item=ITEM, theorems=()), A_COMMON + [
+    "C05": merge_property(lambda t: fam(t, story=STORY, item=ITEM, other=OTHER, theorems=()), A_COMMON + [
         "a step whose status is not ok must leave the abstract state AND str(ro) unchanged"]),
     "C06": merge_property(lambda t: fam(t, story=STORY, item=ITEM, theorems=()) + [
         # containers that hold an id twice (outside the premise of C01-C05): deletes, judged by `acted_upon` only
